@@ -404,6 +404,11 @@ impl Renderable for TableRow {
             .trace_with(|| self.trace().into())?;
         let array = range.evaluate()?;
         let cols = evaluate_attr(&self.cols, runtime)?;
+        if cols == Some(0) {
+            return Error::with_msg("`cols` must be greater than zero")
+                .trace(self.trace())
+                .into_err();
+        }
         let limit = evaluate_attr(&self.limit, runtime)?;
         let offset = evaluate_attr(&self.offset, runtime)?.unwrap_or(0);
         let array = iter_array(array, limit, offset, false);
@@ -473,7 +478,7 @@ impl TableRowObject {
         let first = i == 0;
         let last = i == (len - 1);
         let col_first = col == 0;
-        let col_last = col == (cols - 1) || last;
+        let col_last = col + 1 == cols || last;
         Self {
             length: len,
             index0: i,
